@@ -670,17 +670,38 @@ def translate_optable(path: str) -> tuple[str, list[TranslationError]]:
     ff = next((n for n in tree.body if isinstance(n, ast.ClassDef) and n.name == "FunctionFactory"), None)
     if ff is None:
         return "", [TranslationError("factory.py:FunctionFactory", "class not found")]
-    # _precedence(importance) = maximum - importance * step
+    # _precedence(importance): straight-line integer arithmetic over the parameter, local constants and literals
     prec = find_method(ff, "_precedence")
-    consts = {}
-    try:
+
+    def int_eval(n: ast.AST, env: dict[str, int]) -> int:
+        if isinstance(n, ast.Constant) and isinstance(n.value, int) and not isinstance(n.value, bool):
+            return n.value
+        if isinstance(n, ast.Name) and n.id in env:
+            return env[n.id]
+        if isinstance(n, ast.UnaryOp) and isinstance(n.op, ast.USub):
+            return -int_eval(n.operand, env)
+        if isinstance(n, ast.BinOp) and isinstance(n.op, (ast.Add, ast.Sub, ast.Mult)):
+            a, b = int_eval(n.left, env), int_eval(n.right, env)
+            return a + b if isinstance(n.op, ast.Add) else a - b if isinstance(n.op, ast.Sub) else a * b
+        raise ValueError(ast.unparse(n))
+
+    def prec_fn(k: int) -> int:
+        env = {prec.args.args[1].arg: k}
         for st in prec.body:
-            if isinstance(st, ast.Assign) and isinstance(st.targets[0], ast.Name) and isinstance(st.value, ast.Constant):
-                consts[st.targets[0].id] = st.value.value
-        ret = [st for st in prec.body if isinstance(st, ast.Return)][0]
-        if ast.unparse(ret.value) != "maximum - importance * step":
-            raise ValueError(ast.unparse(ret.value))
-        pmax, pstep = int(consts["maximum"]), int(consts["step"])
+            if isinstance(st, ast.Expr) and isinstance(st.value, ast.Constant) and isinstance(st.value.value, str):
+                continue
+            if isinstance(st, ast.Assign) and len(st.targets) == 1 and isinstance(st.targets[0], ast.Name):
+                env[st.targets[0].id] = int_eval(st.value, env)
+            elif isinstance(st, ast.AnnAssign) and isinstance(st.target, ast.Name) and st.value is not None:
+                env[st.target.id] = int_eval(st.value, env)
+            elif isinstance(st, ast.Return) and st.value is not None:
+                return int_eval(st.value, env)
+            else:
+                raise ValueError(ast.unparse(st))
+        raise ValueError("no return")
+
+    try:
+        prec_fn(0)
     except Exception as e:
         return "", [TranslationError("factory.py:FunctionFactory._precedence", f"unexpected form: {e}")]
     # Rule.AND / Rule.OR keyword strings from rule.py
@@ -722,8 +743,8 @@ def translate_optable(path: str) -> tuple[str, list[TranslationError]]:
                 pv = kw.get("precedence")
                 if pv is None:
                     precedence = 0
-                elif isinstance(pv, ast.Call) and ast.unparse(pv.func) == "p" and isinstance(pv.args[0], ast.Constant):
-                    precedence = pmax - pv.args[0].value * pstep
+                elif isinstance(pv, ast.Call) and ast.unparse(pv.func) in ("p", "self._precedence") and isinstance(pv.args[0], ast.Constant):
+                    precedence = prec_fn(pv.args[0].value)
                 else:
                     raise ValueError("unexpected precedence form")
                 av = kw.get("associativity")
